@@ -116,11 +116,14 @@ def gen_skel(r, depth, budget):
         return (["M", str(len(ps))] + [str(x) for x in ps] + tb,
                 "{% macro m" + str(budget[1]) + "(" + ", ".join(nm(x) for x in ps) + ") %}" + sb + "{% endmacro %}")
     if k < 0.94:
-        ps = [r.choice([10, 11, 12, 8, 9]) for _ in range(r.randint(0, 2))]
+        ps = [r.choice([10, 11, 12, 8, 9, 1, 2, 3]) for _ in range(r.randint(0, 2))]
+        us = [r.choice([1, 2, 3, 10]) for _ in range(r.randint(0, 2))] if r.random() < 0.5 else []
         ks = [r.choice([10, 11, 12, 10, 11, 12, 1, 4, 5]) for _ in range(r.randint(0, 2))]
         tb, sb = body()
-        return (["A", str(len(ps))] + [str(x) for x in ps] + [str(len(ks))] + [str(x) for x in ks] + tb,
-                "{% call(" + ", ".join(nm(x) for x in ps) + ") f(" + ", ".join(f"{nm(x)}=1" for x in ks) + ") %}" + sb + "{% endcall %}")
+        return (["A", str(len(ps))] + [str(x) for x in ps] + [str(len(us))] + [str(x) for x in us]
+                + [str(len(ks))] + [str(x) for x in ks] + tb,
+                "{% call(" + ", ".join(nm(x) for x in ps) + ") f(" + ", ".join([nm(x) for x in us] + [f"{nm(x)}=1" for x in ks])
+                + ") %}" + sb + "{% endcall %}")
     tb, sb = body()
     budget[1] += 1
     return ["L"] + tb, "{% block b" + str(budget[1]) + " %}" + sb + "{% endblock %}"
